@@ -626,6 +626,207 @@ fn check_log(rows: &[RowInfo], fails: &mut Vec<(String, String)>, ev: usize) {
     }
 }
 
+/// Concurrent family: several `ingest_operation` calls for one log race on a shared, FILE-BACKED
+/// store with a real connection pool (8 connections; the in-memory test store has one and hides
+/// stale reads). The store's own FIFO transaction permit is the gate: the harness holds it while
+/// the ingests are started in `queue` order, with a gate transaction queued behind each of them;
+/// after the release the transactions therefore run in queue order, and behind each ingest the
+/// harness reads the log and runs the armed `LogPrune` step while holding the gate. Since the
+/// transaction makes check-and-insert atomic, the result must be the one of the sequential
+/// history "prefix, then queue order with the prune steps" — which is what is sent to the model.
+fn run_gated(out: &mut Out, rt: &tokio::runtime::Runtime, dir: &std::path::Path, n: usize, decls: Vec<Decl>, prefix: Vec<usize>, queue: Vec<usize>, note: &str) {
+    use p2panda_store::{SqliteStoreBuilder, Transaction};
+    use p2panda_stream::ingest::ingest_operation;
+    use tokio::sync::oneshot;
+    let x = custom_ops();
+    let path = dir.join(format!("conc-{}-{n}.sqlite", std::process::id()));
+    let _ = std::fs::remove_file(&path);
+    let url = format!("sqlite://{}", path.display());
+    let flag_by_id: BTreeMap<Hash, bool> = decls.iter().map(|d| (d.op.hash, flag_of(&d.op))).collect();
+    let key = (decls[0].op.header.verifying_key, log_of(&decls[0].op));
+    let one: BTreeSet<(VerifyingKey, u64)> = [key].into_iter().collect();
+    let topic = 10 + key.1;
+    let mut executed: Vec<Event> = vec![];
+    let mut words: Vec<String> = vec![];
+    let mut fails: Vec<(String, String)> = vec![];
+    let local = tokio::task::LocalSet::new();
+    let final_rows: Vec<RowInfo> = rt.block_on(local.run_until(async {
+        let store = SqliteStoreBuilder::new().database_url(&url).min_connections(1).max_connections(8).build().await.expect("file-backed store");
+        let log_prune = LogPrune::<SqliteStore, Ev, u64, Custom>::new(store.clone());
+        let mut low_water: Option<u32> = None;
+        for &i in &prefix {
+            let d = &decls[i];
+            let r = ingest_operation(&store, &d.op, &key.1, &topic, flag_of(&d.op)).await;
+            let rows = rows_of::<Custom>(&store, &one, &flag_by_id).await;
+            let w = match &r {
+                Ok(true) => "ins",
+                Ok(false) => "dup",
+                Err(IngestError::InvalidOperation(e)) => op_err_word(e),
+                Err(_) => "E:store",
+            };
+            executed.push(Event::Deliver(i, topic));
+            words.push(format!("{}/{}", w, rows_text(&rows)));
+        }
+        // hold the permit; queue ingest_1, gate_1, ingest_2, gate_2, …
+        let blocker = store.begin().await.expect("begin");
+        let mut tasks = vec![];
+        for &i in &queue {
+            let (st, op) = (store.clone(), decls[i].op.clone());
+            let log = key.1;
+            let t = tokio::task::spawn_local(async move { ingest_operation(&st, &op, &log, &topic, flag_of(&op)).await });
+            tokio::time::sleep(std::time::Duration::from_millis(40)).await;
+            let (acq_tx, acq_rx) = oneshot::channel::<()>();
+            let (rel_tx, rel_rx) = oneshot::channel::<()>();
+            let st = store.clone();
+            let g = tokio::task::spawn_local(async move {
+                let permit = st.begin().await.expect("gate begin");
+                let _ = acq_tx.send(());
+                let _ = rel_rx.await;
+                st.rollback(permit).await.expect("gate rollback");
+            });
+            tokio::time::sleep(std::time::Duration::from_millis(40)).await;
+            tasks.push((i, t, acq_rx, rel_tx, g));
+        }
+        store.rollback(blocker).await.expect("release");
+        for (i, t, acq_rx, rel_tx, g) in tasks {
+            let d = &decls[i];
+            let r = match tokio::time::timeout(std::time::Duration::from_secs(20), t).await {
+                Ok(Ok(r)) => r,
+                _ => {
+                    fails.push(("concurrent-hang".into(), "an ingest task did not finish".into()));
+                    break;
+                }
+            };
+            let _ = tokio::time::timeout(std::time::Duration::from_secs(20), acq_rx).await;
+            let rows = rows_of::<Custom>(&store, &one, &flag_by_id).await;
+            let w = match &r {
+                Ok(true) => "ins",
+                Ok(false) => "dup",
+                Err(IngestError::InvalidOperation(e)) => op_err_word(e),
+                Err(_) => "E:store",
+            };
+            executed.push(Event::Deliver(i, topic));
+            words.push(format!("{}/{}", w, rows_text(&rows)));
+            let seq = d.op.header.seq_num;
+            if let (Ok(true), Some(n)) = (&r, low_water) {
+                if seq < n {
+                    fails.push(("resurrected-below-prune-point".into(), format!("concurrent schedule: seq {seq} inserted although the prune-flagged operation at seq {n} had been ingested (and pruned) before this ingest got the transaction")));
+                }
+            }
+            check_log(&rows, &mut fails, executed.len() - 1);
+            if r.is_ok() && flag_of(&d.op) {
+                low_water = Some(low_water.unwrap_or(0).max(seq));
+                // the armed LogPrune step, run while the gate transaction keeps the next ingest waiting
+                let item = Ev {
+                    op: d.op.clone(),
+                    ingest: IngestArgs { log_id: key.1, topic, prune_flag: true },
+                    prune: LogPruneArgs::PruneEntriesUntil { author: key.0, log_id: key.1, seq_num: seq },
+                };
+                let res = match log_prune.process(item).await {
+                    Ok(()) => log_prune.next().await.map(|(_, r)| r),
+                    Err(e) => Err(e),
+                };
+                let rows = rows_of::<Custom>(&store, &one, &flag_by_id).await;
+                let w = match &res {
+                    Ok(LogPruneResult::Pruned { num_entries }) => format!("p{num_entries}"),
+                    Ok(LogPruneResult::Noop) => "noop".to_string(),
+                    Err(_) => "E:store".to_string(),
+                };
+                executed.push(Event::Prune(i));
+                words.push(format!("{}/{}", w, rows_text(&rows)));
+            }
+            let _ = rel_tx.send(());
+            let _ = g.await;
+        }
+        let rows = rows_of::<Custom>(&store, &one, &flag_by_id).await;
+        check_log(&rows, &mut fails, executed.len());
+        if let Some(n) = low_water {
+            if rows.iter().any(|r| r.seq < n) && executed.iter().any(|e| matches!(e, Event::Prune(_))) {
+                fails.push(("resurrected-below-prune-point".into(), format!("concurrent schedule: final log holds a row below the executed prune point {n}: {:?}", rows.iter().map(|r| r.seq).collect::<Vec<_>>())));
+            }
+        }
+        store.pool().close().await;
+        rows
+    }));
+    let _ = std::fs::remove_file(&path);
+    let _ = std::fs::remove_file(format!("{}-wal", path.display()));
+    let _ = std::fs::remove_file(format!("{}-shm", path.display()));
+    // request / answer
+    let mut all = vec![];
+    for d in &decls {
+        collect_op_section(&d.op, &x, &mut all);
+    }
+    let sigs: Vec<_> = decls.iter().filter_map(|d| honest_sig_entry(&d.op.header)).collect();
+    for sg in &sigs {
+        collect_sig_entry(sg, &mut all);
+    }
+    let ids = IdMap::new(all);
+    let mut req = String::from("hist K");
+    for d in &decls {
+        req.push_str(" ; ");
+        req.push_str(&render_op_section(&d.op, &x, &ids));
+    }
+    for sg in &sigs {
+        req.push_str(" ; ");
+        req.push_str(&render_sig_entry(sg, &ids));
+    }
+    req.push_str(" ; E");
+    for e in &executed {
+        match e {
+            Event::Deliver(i, t) => req.push_str(&format!(" d{i}:{t}")),
+            Event::Prune(i) => req.push_str(&format!(" p{i}")),
+        }
+    }
+    let ans_words: Vec<String> = words.iter().map(|w| sub_ids(w, &ids)).collect();
+    let mut v: Vec<(u32, usize)> = final_rows.iter().map(|r| (r.seq, ids.id(&r.id))).collect();
+    v.sort();
+    let dump = if v.is_empty() { "-".to_string() } else { format!("{}.{}={}", ids.id(key.0.as_bytes()), key.1, v.iter().map(|(q, i)| format!("{q}:{i}")).collect::<Vec<_>>().join(",")) };
+    let ans = format!("{} | {}", ans_words.join(" "), dump);
+    let n = out.case(&req, &ans, true);
+    out.count(&format!("concurrent schedule {note}"));
+    out.count("history concurrent (file-backed store, 8 connections, gated by the transaction permit)");
+    let mut seen = BTreeSet::new();
+    for (tag, what) in fails {
+        if seen.insert(tag.clone()) {
+            out.oracle_fail(n, &tag, &what, &req, &ans);
+        }
+    }
+}
+
+/// The concurrent schedules of one run.
+fn concurrent_family(out: &mut Out, rt: &tokio::runtime::Runtime, dir: &std::path::Path, rng: &mut Rng, keys: &[SigningKey], rounds: usize) {
+    let mut n = 0usize;
+    for round in 0..rounds {
+        let key = &keys[round % keys.len()];
+        let stored = if round == 0 { 3 } else { rng.range(1, 4) as usize };
+        let ppoint = stored + rng.range(1, 3) as usize + if round == 0 { 1 } else { 0 };
+        let len = ppoint + 2;
+        let ops = chain(rng, key, 1, len, (0, 1), &[ppoint as u32, 99]);
+        let mut decls: Vec<Decl> = ops.into_iter().map(|op| Decl { op, class: "honest" }).collect();
+        // an equivocating successor of the stored prefix (same slot as the honest next operation)
+        let eq = mk_op(rng, key, 1, stored as u32, Some(decls[stored - 1].op.header.hash()), false);
+        decls.push(Decl { op: eq, class: "equivocation" });
+        let eqi = decls.len() - 1;
+        let prefix: Vec<usize> = (0..stored).collect();
+        let older = stored; // the honest next operation: older than the prune point
+        let schedules: Vec<(Vec<usize>, &str)> = vec![
+            (vec![ppoint, older], "prune point first, older operation behind it"),
+            (vec![older, ppoint], "older operation first, prune point behind it"),
+            (vec![older, eqi], "two successors of the same entry (equivocation race)"),
+            (vec![older, older], "the same operation twice (duplicate race)"),
+            (vec![older, older + 1], "successor and its successor"),
+            (vec![ppoint, older, ppoint + 1], "prune point, older operation, successor of the prune point"),
+        ];
+        for (q, note) in schedules {
+            if q.iter().any(|i| *i >= decls.len()) {
+                continue;
+            }
+            run_gated(out, rt, dir, n, decls.clone(), prefix.clone(), q, note);
+            n += 1;
+        }
+    }
+}
+
 fn permutations(n: usize) -> Vec<Vec<usize>> {
     fn go(k: usize, a: &mut Vec<usize>, out: &mut Vec<Vec<usize>>) {
         if k == a.len() {
@@ -657,6 +858,13 @@ fn main() {
     // the C05 witness history is part of every run
     let w = witness(&mut rng, &keys);
     run_history(&mut out, &rt, &mut rng, w);
+    // concurrent ingests of one log on a file-backed multi-connection store
+    let conc_rounds = match args.tier {
+        Tier::Quick => 2,
+        Tier::Thorough => 12,
+        Tier::Search => 4,
+    };
+    concurrent_family(&mut out, &rt, &args.out, &mut rng, &keys, conc_rounds);
     let (n_hist, max_len, perm_universes) = match args.tier {
         Tier::Quick => (250usize, 14usize, 3usize),
         Tier::Thorough => (2_500, 22, 10),
@@ -686,7 +894,7 @@ fn main() {
     }
     out.extra.insert("permutation_histories".into(), exhaustive.into());
     out.finish(
-        "universes of honest chains (1-4 authors x 1-3 logs x up to 14 (thorough 25) operations, prune flags with probability 0 / 0.15 / 0.33) delivered through the real Ingest and LogPrune processors: random interleaving, drops, immediate duplicates, late re-deliveries, forged copies (key, backlink, seq, flag, signature), equivocations, foreign copies, author-signed skip-ahead / skip-back operations (backlink = hash of a real entry at seq j, seq = j+2..j+5 or j-3..j, with and without prune flag) delivered right behind their target; 30 % fully shuffled; prune steps immediately / delayed by 1-5 deliveries / dropped; plus every delivery order of small universes (3-6 operations, 1-2 prune points) and the C05 witness. non-trivial = at least two of: an out-of-order delivery accepted, a forged copy rejected, a prune-flagged operation delivered after a larger prune point",
+        "universes of honest chains (1-4 authors x 1-3 logs x up to 14 (thorough 25) operations, prune flags with probability 0 / 0.15 / 0.33) delivered through the real Ingest and LogPrune processors: random interleaving, drops, immediate duplicates, late re-deliveries, forged copies (key, backlink, seq, flag, signature), equivocations, foreign copies, author-signed skip-ahead / skip-back operations (backlink = hash of a real entry at seq j, seq = j+2..j+5 or j-3..j, with and without prune flag) delivered right behind their target; 30 % fully shuffled; prune steps immediately / delayed by 1-5 deliveries / dropped; plus concurrent schedules (2-3 ingest_operation calls for one log racing on a file-backed 8-connection store, ordered by the store's FIFO transaction permit, prune steps run behind a gate transaction: prune point vs older operation in both queue orders, equivocation race, duplicate race, successor chains); plus every delivery order of small universes (3-6 operations, 1-2 prune points) and the C05 witness. non-trivial = at least two of: an out-of-order delivery accepted, a forged copy rejected, a prune-flagged operation delivered after a larger prune point",
         false,
     );
 }
